@@ -4,7 +4,7 @@ from props.fam_model import MEMBERS, member_module, LOAD_PARAMS, LOAD_ARGS, load
 
 QUICK = ["omit_stub", "plain", "rename", "nested", "camel", "skip_gt_only", "map_gt_style", "ellipsis_style", "pairs_map", "stack_override", "stack_style",
          "forbid_rename", "forbid_nested", "kwargs", "rest_field_rename", "saturator", "omit_one", "omit_nested", "as_list_forbid", "list_gaps",
-         "list_in_dict", "dict_in_list", "no_trim", "map_none"]
+         "list_in_dict", "dict_in_list", "no_trim", "map_none", "req_two_crowns", "req_three_levels"]
 
 
 def build(tier, seed):
